@@ -30,3 +30,13 @@ def from_message(message):
         '#GETTING_DATA': DATA
     }
     return errdict.get(str(message), ERROR)
+
+
+def clear_tracebacks():
+    """
+    The error objects above are shared and get raised over and over: every raise
+    appends to the object's __traceback__, keeping frames alive forever.
+    """
+    for err in (ERROR, DIV_ZERO, NAME, NOT_AVAILABLE, NULL, NUM, REF, VALUE, DATA):
+        err.__traceback__ = None
+
